@@ -13,6 +13,8 @@ def run(ctx, rep):
     cg.rule_complexity(rep, crate)
     cg.rule_priority_parse(rep, crate)
     cg.rule_priority_writers(rep, crate)
+    # the pattern whose structure is counted is the documented one: byte literals are escaped byte by byte (a quantifier binds to one byte)
+    cg.rule_literal_escape(rep, crate)
     # "it wins or the derive reports an ambiguity": the winner of a state is the leaf with the maximum priority, ties are errors
     from props import c08
     c08.rule_state_type(rep, crate)
